@@ -549,6 +549,15 @@ where
     fn num(n: T) -> Self {
         DeepNode::Num(n)
     }
+
+    /// True if the variable with the passed name occurs in the node.
+    fn contains_var(&self, name: &str) -> bool {
+        match self {
+            DeepNode::Num(_) => false,
+            DeepNode::Var((_, v)) => v == name,
+            DeepNode::Expr(e) => e.nodes.iter().any(|node| node.contains_var(name)),
+        }
+    }
 }
 impl<T, OF, LM> Debug for DeepNode<'_, T, OF, LM>
 where
@@ -865,6 +874,13 @@ where
     where
         F: FnMut(&str) -> Option<Self>,
     {
+        // which of the listed variables occur in a node at all, e.g., `x` does not occur in the
+        // partial derivative `{y}` of `x*y` with respect to `x` but is listed as variable
+        let occurs = self
+            .var_names
+            .iter()
+            .map(|v| self.nodes.iter().any(|node| node.contains_var(v)))
+            .collect::<SmallVec<[bool; N_VARS_ON_STACK]>>();
         let mut all_vars = SmallVec::<[String; N_VARS_ON_STACK]>::new();
         let mut push = |v: String| {
             if !all_vars.contains(&v) {
@@ -893,6 +909,27 @@ where
                     *node = DeepNode::Expr(Box::new(deepex));
                 }
                 _ => (),
+            }
+        }
+        // variables of the expression that do not occur in any node, e.g., `x` in the partial
+        // derivative of `x` with respect to `x`, are kept unless they are substituted; if they
+        // are substituted, the variables of the replacement take their place
+        for (v, v_occurs) in self.var_names.iter().zip(occurs.iter()) {
+            if !v_occurs {
+                match sub(v.as_str()) {
+                    None => {
+                        if !all_vars.contains(v) {
+                            all_vars.push(v.clone());
+                        }
+                    }
+                    Some(replacement) => {
+                        for vn in replacement.var_names() {
+                            if !all_vars.contains(vn) {
+                                all_vars.push(vn.clone());
+                            }
+                        }
+                    }
+                }
             }
         }
         all_vars.sort_unstable();
